@@ -270,7 +270,7 @@ theorem C11_holds : C11_statement := by
 /-- inside `close()` the flag is already set while the hook has not run yet (what a second thread or the
 `before_closed` callback can observe); the theorems above speak about API-call boundaries -/
 theorem in_close_window : ∃ l, Reach l ∧ l.closed = true ∧ l.inClose = true ∧ l.hookRuns = 0 :=
-  ⟨_, ⟨[.closeBegin], rfl⟩, rfl, rfl, rfl⟩
+  ⟨_, ⟨false, [.closeBegin], rfl⟩, rfl, rfl, rfl⟩
 
 /-- a sync request answered, an async one pending and one blocked when EOF is met while serving, a waiter
 for the pending one afterwards, a request issued afterwards with a by-reference argument, a second close -/
@@ -303,6 +303,20 @@ def sampleCloseInCallback : List Ev :=
 example : ∃ l, run Life.init sampleCloseInCallback = some l ∧ l.closed = true ∧ l.hookRuns = 1
     ∧ l.tablesCleared = true ∧ l.outcomes = [(1, .eof), (0, .eof)] ∧ l.blocked = [] ∧ l.pending = [] :=
   ⟨_, rfl, rfl, rfl, rfl, rfl, rfl, rfl⟩
+
+/-- a side whose DISCONNECT hook raises (user code; e.g. a hook that undoes what `on_connect` installed when the
+peer vanished before `on_connect` got that far): EOF while a request is blocked — the hook runs once, everything
+is released (the clearing is in `_cleanup`'s `finally`), the waiter is released with the hook's exception in
+place of EOFError, the side is clean and closing again is a no-op.  All theorems above hold for such a side
+too: `Reach` covers both kinds of hook. -/
+example : ∃ l, run (Life.initWith true) [.issue 0 false, .wait 0 false .eof, .eofInServe .eof, .closeAgain] = some l
+    ∧ l.closed = true ∧ l.inClose = false ∧ l.hookRuns = 1 ∧ l.tablesCleared = true ∧ l.blocked = []
+    ∧ l.outcomes = [(0, .closeExc)] :=
+  ⟨_, rfl, rfl, rfl, rfl, rfl, rfl, rfl⟩
+
+example : ∃ l, run (Life.initWith true) [.closeBegin, .closeEnd .sent, .closeAgain] = some l ∧ l.closed = true
+    ∧ l.hookRuns = 1 ∧ l.tablesCleared = true ∧ l.closeRaised = [.hook] :=
+  ⟨_, rfl, rfl, rfl, rfl, rfl⟩
 
 /-- a raising `before_closed` hook (`close_catchall` off): the call raises, the side is clean all the same -/
 example : ∃ l, run Life.init [.closeBegin, .closeEnd (.hookRaised false)] = some l ∧ l.closed = true
